@@ -31,6 +31,20 @@ pub fn probes(z: &Zone, dense: bool) -> Vec<i64> {
             }
         }
     }
+    if dense {
+        // thorough: every 6 hours of 2023-2026 and every day (at 12:00 and 23:59:59) of 1900-2500
+        let mut t = unix_of(2023, 1, 1, 0);
+        while t < unix_of(2027, 1, 1, 0) {
+            v.push(t);
+            t += 6 * 3600;
+        }
+        let mut d = unix_of(1900, 1, 1, 12);
+        while d < unix_of(2501, 1, 1, 0) {
+            v.push(d);
+            v.push(d + 12 * 3600 - 1);
+            d += 86_400;
+        }
+    }
     let step = if dense { 1 } else { 7 };
     let mut y = 1900;
     while y <= 2500 {
@@ -345,7 +359,7 @@ pub fn run(ctx: &Ctx) -> i32 {
     rep.extra.insert("corpus_files".into(), json!(corpus.len()));
     rep.extra.insert("corpus_with_reencodings".into(), json!(files.len()));
     let dense = ctx.thorough;
-    rep.sweep("corpus: every distinct zoneinfo file, its slim re-encoding and its v1 block", files.len() as u64, "probes: transitions -1/0/+1, rule switches +-1 s / +-1 h, mid-season points 1900-2500", |i, acc| {
+    rep.sweep("corpus: every distinct zoneinfo file, its slim re-encoding and its v1 block", files.len() as u64, "probes: transitions -1/0/+1, rule switches +-1 s / +-1 h, mid-season points 1900-2500 (thorough: also every 6 h of 2023-2026 and twice every day of 1900-2500)", |i, acc| {
         let (n, b, z) = &files[i as usize];
         case_file(n, b, z, dense, acc);
         for t in [0i64, 1_700_000_000, 1_720_000_000, 2_163_196_800, 4_000_000_000] {
